@@ -1471,7 +1471,7 @@ func runC18(c *ev.Ctx) {
 		sizes := []int{2500, 12500, 20001, 125000, 150000, 131073, 300000}
 		rounds := 2
 		if c.Thorough() {
-			sizes = append(sizes, 600000, 1250000)
+			sizes = append(sizes, 600000, 1250000, 1100000, 2500000) // two different plan lengths >= 2^24 among them
 			rounds = 4
 		}
 		res := mixedLengthBatch(gen.Mix(seed, 1818), sizes, rounds)
